@@ -12,7 +12,8 @@ vars == <<st>>
 Mods == 0..(N-1)
 
 Init == st = EmptyTables(N)
-Bound == \A m \in 1..N : Len(st.inl[m]) <= MaxLen /\ Len(st.outl[m]) <= MaxLen
+InBound == \A m \in 1..N : Len(st.inl[m]) <= MaxLen /\ Len(st.outl[m]) <= MaxLen
+Bound == InBound   \* the CONSTRAINT; invariants use InBound (TLC -coverage cannot evaluate a constraint name inside an invariant)
 
 O(m, b) == [m |-> m, neg |-> b]
 Ops1 == {<<O(m, b)>> : m \in Mods, b \in BOOLEAN}
@@ -58,7 +59,7 @@ RTSuperset      == \A sub \in SUBSET Mods : LoadOK(st, "superset", Loaded(st, "s
 (* exact reload (not only up to trailing slots) of in tables for full slot information *)
 (* emitted once per distinct reachable state (TLC evaluates an invariant once per state): *)
 (* the C08 driver saves and loads a real project in each emitted state                  *)
-EmitState       == IF ~Bound \/ Hash(st, <<>>, <<>>) % StateK # EmitSel % StateK THEN TRUE
+EmitState       == IF ~InBound \/ Hash(st, <<>>, <<>>) % StateK # EmitSel % StateK THEN TRUE
                    ELSE PrintT(ToJson([k |-> "S", st |-> st]))
 RTExactIn       == LET l == Loaded(st, "canonical", {}) IN
                    \A m \in 1..N : l.inl[m] = StripT(st.inl[m]) /\ l.ins[m] = StripT(st.ins[m])
